@@ -11,6 +11,11 @@
 (*   "wb"    - a stored response that expires, is validated in the         *)
 (*             foreground or (stale-while-revalidate) background with 304  *)
 (*             or a full reply, then probes of the result; two variants    *)
+(*   "cond"  - the client's own conditional request (If-None-Match with    *)
+(*             the stored or another tag, If-Modified-Since) meets a       *)
+(*             stored response with ETag / Last-Modified / both / none,    *)
+(*             fresh or stale, with or without no-cache; the origin says   *)
+(*             304 or sends a new representation; two plain probes follow  *)
 (* Every complete history is exported with the model's predictions.        *)
 (***************************************************************************)
 EXTENDS HttpCache
@@ -66,7 +71,16 @@ W304 == IF Thorough THEN { [A304 EXCEPT !.ma = m, !.age = a, !.nodate = d, !.eta
                [A304 EXCEPT !.ma = 5, !.nodate = 1],   \* a short new lifetime that starts when the 304 is received, not at the old Date
                [A304 EXCEPT !.ma = 5, !.age = 2],      \* ... of which the 304's own Age has used up a part
                [A304 EXCEPT !.fl = <<"must-revalidate">>, !.ma = 5], [A304 EXCEPT !.fl = <<"no-cache">>],
+               [A304 EXCEPT !.vary = <<2, 3>>], [A304 EXCEPT !.vs = 1],   \* a 304 may change the Vary field like any other
                [A304 EXCEPT !.fl = <<"public">>] }      \* two directives: the lifetime is not the first one
+
+(***************************************************************************)
+(* family "cond": client-supplied conditional requests                     *)
+(***************************************************************************)
+CStored == { [A0 EXCEPT !.ma = 5, !.etag = v[1], !.lm = v[2]] : v \in {<<0, None>>, <<1, None>>, <<0, 100>>, <<1, 100>>} }
+CRq == { [Rq0 EXCEPT !.inm = c[1], !.ims = c[2], !.fl = f] : c \in {<<9, 0>>, <<1, 0>>, <<0, 1>>, <<9, 1>>}, f \in {<<>>, <<"no-cache">>} }
+C304 == { [A304 EXCEPT !.etag = e] : e \in {1, 9} }
+CFull == { [A0 EXCEPT !.ma = 50, !.etag = 2] }
 
 Stored == IF DOMAIN ent = {} THEN NoEnt ELSE ent[CHOOSE i \in DOMAIN ent : TRUE]
 
@@ -76,13 +90,16 @@ Stored == IF DOMAIN ent = {} THEN NoEnt ELSE ent[CHOOSE i \in DOMAIN ent : TRUE]
 LastPos == CASE Family = "vary" -> 2 * VDepth - 1
           [] Family = "inval" -> 5
           [] Family = "wb" -> 9
+          [] Family = "cond" -> 7
 
 IsTick(p) == CASE Family = "vary" -> p % 2 = 0
                [] Family = "inval" -> FALSE
                [] Family = "wb" -> p \in {3, 5, 7}
+               [] Family = "cond" -> p \in {2, 4, 6}
 
 Ticks(p) == CASE Family = "vary" -> {0, 7}
               [] Family = "wb" -> IF p = 3 THEN {7} ELSE IF p = 5 THEN {3, 60} ELSE {1}
+              [] Family = "cond" -> IF p = 2 THEN {2, 9} ELSE IF p = 4 THEN {1} ELSE {100}
               [] OTHER -> {0}
 
 Requests(p) ==
@@ -93,6 +110,7 @@ Requests(p) ==
          ELSE IF p = 3 THEN {[Rq0 EXCEPT !.m = m] : m \in IMethods}
          ELSE IF p = 4 THEN {[Rq0 EXCEPT !.sel = Sel(1, 0)], [Rq0 EXCEPT !.sel = Sel(2, 0)]}
          ELSE {[Rq0 EXCEPT !.u = u] : u \in {1, 10}}
+    [] Family = "cond" -> IF p = 3 THEN CRq ELSE {Rq0}
     [] Family = "wb" ->
          IF p = 1 THEN {[Rq0 EXCEPT !.sel = Sel(1, 0)]}
          ELSE IF p = 2 THEN {[Rq0 EXCEPT !.sel = Sel(2, 0)]}
@@ -111,6 +129,12 @@ Answers ==
          IF ex.purpose = "bypass" THEN (IF ex.rq.m \in {"HEAD", "OPTIONS"} THEN {[A0 EXCEPT !.ccp = 0, !.ma = None]} ELSE IAnsUnsafe)
          ELSE IF pos - 1 = 1 THEN {[A0 EXCEPT !.vary = <<2>>]}
          ELSE {A0}
+    [] Family = "cond" ->
+         IF pos - 1 = 1 THEN CStored
+         \* the origin can answer 304 to any request that carries a condition - the cache's or the client's
+         ELSE IF pos - 1 = 3 /\ (HasValidators \/ ex.rq.inm # 0 \/ ex.rq.ims # 0) THEN C304 \cup CFull
+         ELSE IF ex.purpose = "reval" /\ HasValidators THEN {A304} \cup CFull
+         ELSE CFull
     [] Family = "wb" ->
          IF pos - 1 = 1 THEN WStored
          ELSE IF pos - 1 = 2 THEN {[A0 EXCEPT !.ma = 100, !.vary = <<2>>]}   \* the other variant stays fresh
